@@ -95,8 +95,8 @@ def run(ctx):
         c19.r19_11(ctx)
         # parked wakers are released by close(): an owner Drop that can skip the close (early return while panicking, a counter that
         # never reaches zero) leaves the cycle state -> waker -> task -> subscriber -> state alive for ever
-        if not getattr(ctx, "_c03_in_c20", False):
-            ctx._c03_in_c20 = True
+        if getattr(ctx, "_c03_in_c20", None) != ctx.config:   # once per configuration
+            ctx._c03_in_c20 = ctx.config
             c03.run(ctx)
 
 
